@@ -263,6 +263,8 @@ pub enum IntervalError { InvalidBounds, EmptyInterval }
 //@fn right ret r
 //@| ensures match *self { Interval::TwoSided(_, h) => r == Some(&h), Interval::LowerOneSided(h) => r == Some(&h), Interval::UpperOneSided(_) => r is None },
 //@endimpl
+// vacuity guard: must FAIL (the runner checks that it does)
+proof fn canary_must_fail<T: PartialOrd>() requires total_order::<T>(), unbounded::<T>() ensures false {}
 } // mod code
 } // verus!
 fn main() {}
